@@ -113,6 +113,55 @@ def holdsC05 (segs : List OSeg) (o : BindObs) : Bool :=
     (let als := numbersAfter (bs " AS _sqlair_") o.sql
      als == List.range als.length && (hasOutputSeg segs == !als.isEmpty)))
 
+/-! ### C03, value level: an independent specification of "the field carrying that db tag" -/
+
+/-- the member of `v` with db tag `tag`, found by searching the fields *by tag* — through
+    exported, untagged, embedded structs and pointers to structs — without using the index
+    paths `getStructFields` computes; map values are looked up by key -/
+def valueByTag (C : Cls) (tt : TypeTable) : Nat → GoVal → Bytes → Option GoVal
+  | 0, _, _ => none
+  | fuel+1, v, tag =>
+    match v with
+    | .ptr _ (some p) => valueByTag C tt fuel p tag
+    | .map _ kv => mapIndex kv tag
+    | .struct h fs =>
+      let td := tt.get h.t
+      (td.fields.zip fs).findSome? fun (fd, fv) =>
+        if fd.tag.size != 0 then
+          match parseTag C fd.tag with
+          | .ok (name, _) => if name == tag && fd.exported then some fv else none
+          | .error _ => none
+        else if fd.anon && fd.exported then
+          match fv with
+          | .struct .. => valueByTag C tt fuel fv tag
+          | .ptr _ (some p) => valueByTag C tt fuel p tag
+          | _ => none
+        else none
+    | _ => none
+
+def GoVal.typeName (tt : TypeTable) (v : GoVal) : Bytes :=
+  match v with
+  | .ptr _ (some p) => (tt.get p.tid).name
+  | v => (tt.get v.tid).name
+
+/-- for statements whose only expressions are member inputs: the k-th argument the driver
+    receives is named sqlair_k and is the value of the member the k-th expression names -/
+def holdsC03vals (C : Cls) (tt : TypeTable) (segs : List OSeg) (args : List GoVal) (o : BindObs) : Bool :=
+  if !(o.prepOk && o.bindOk) || o.mode == "none" then true else
+  let exprs := segs.filter (·.kind != .bypass)
+  if !exprs.all (·.kind == .member) then true else
+  exprs.length == o.params.length &&
+  ((List.range exprs.length).zip (exprs.zip o.params)).all fun (k, s, p) =>
+    match s.types with
+    | [a] =>
+      match args.find? (fun v => v.typeName tt == a.ty) with
+      | some v =>
+        match valueByTag C tt 8 v a.member with
+        | some fv => p.1 == s!"sqlair_{k}" && p.2 == fv.h.r
+        | none => false
+      | none => false
+    | _ => true
+
 /-! ### agreement and attribution -/
 
 def insertErrClasses : List String :=
